@@ -87,7 +87,7 @@ func construct(t *rapid.T, friendly bool) sigCase {
 		// internal R is exactly this R) and only the final "x(R) mod n == r" comparison decides.
 		// They are the hostile inputs for comparisons that wrap mod p or mod 2^256, look at the wrong
 		// coordinate, or skip the reduction.  The reference decides the verdict.
-		ralias := gen.Sampled([]string{"exact", "exact", "exact", "exact", "x+(p-n)", "x+(2^256-n)", "x+(2^256-p)", "y(R)", "-x", "x+1", "x(2R)", "x-(p-n)"}).Draw(t, "r-alias")
+		ralias := gen.Sampled([]string{"exact", "exact", "exact", "exact", "x+(p-n)", "x+(2^256-n)", "x+(2^256-p)", "y(R)", "-x", "x+1", "x(2R)", "x-(p-n)", "mont-near", "mont-near", "limb-near"}).Draw(t, "r-alias")
 		if friendly || R.X.Cmp(ref.N) >= 0 {
 			ralias = "exact" // (x(R) >= n: keep r = x - n exact, that class is about the reduction and the r+n encoding)
 		}
@@ -109,6 +109,23 @@ func construct(t *rapid.T, friendly bool) sigCase {
 			r = new(big.Int).Add(R.X, big.NewInt(1))
 		case "x(2R)":
 			r = new(big.Int).Set(R.Double().X)
+		case "mont-near":
+			// r' differs from x(R) mod n in a small part of one internal (Montgomery) limb only: what a limb-wise
+			// comparison that drops or repeats a limb calls equal
+			if v := gen.MontNear(t, ref.N, r, "rmn"); v != nil && v.Sign() != 0 {
+				r = v
+			} else {
+				ralias = "exact"
+			}
+		case "limb-near":
+			// the same for the plain integer: one 64-bit word replaced / one bit flipped
+			w := uint(64 * rapid.IntRange(0, 3).Draw(t, "rln-limb"))
+			mask := new(big.Int).Lsh(new(big.Int).SetUint64(rapid.Uint64().Draw(t, "rln-mask")|1<<uint(rapid.IntRange(0, 63).Draw(t, "rln-bit"))), w)
+			if v := new(big.Int).Xor(r, mask); v.Sign() > 0 && v.Cmp(ref.N) < 0 {
+				r = v
+			} else {
+				ralias = "exact"
+			}
 		}
 		if ralias != "exact" {
 			// only keep aliases that are canonical scalars as integers (a verifier never sees anything else)
